@@ -370,10 +370,39 @@ class _Inliner:
                         self.rewrite_function(m_, mod_helpers, False)
 
 
-def inline_unknown_helpers(tree: ast.Module) -> Tuple[int, List[str]]:
+def names_used(tree: ast.AST) -> Set[str]:
+    """Every identifier and attribute name that occurs in the tree (definitions excluded)."""
+    out: Set[str] = set()
+    for x in ast.walk(tree):
+        if isinstance(x, ast.Name):
+            out.add(x.id)
+        elif isinstance(x, ast.Attribute):
+            out.add(x.attr)
+        elif isinstance(x, ast.alias):
+            out.add(x.name.split('.')[-1])
+            if x.asname:
+                out.add(x.asname)
+    return out
+
+
+def inline_unknown_helpers(tree: ast.Module, external_names: Optional[Set[str]] = None) -> Tuple[int, List[str]]:
+    """Inline; then drop the definition of every helper that was inlined at all its call sites and is mentioned nowhere else
+    (in this module, or -- `external_names` -- in any other module of the program): it is dead code, and a rule that lists the
+    routines of a class must not judge its body out of the context it runs in."""
     inl = _Inliner(known_names())
     # two rounds: a helper may itself call an unknown helper
     for _ in range(2):
         inl.run(tree)
+    inlined = set(inl.names)
+    if inlined:
+        defs = [(parent, st) for parent in [tree] + [c for c in tree.body if isinstance(c, ast.ClassDef)] for st in parent.body
+                if isinstance(st, (ast.FunctionDef, ast.AsyncFunctionDef)) and st.name in inlined]
+        for parent, st in defs:
+            parent.body.remove(st)
+            still = names_used(tree) | (external_names or set())
+            if st.name in still:
+                parent.body.append(st)  # still referenced (a callback, another module, a call site that did not qualify)
+            elif not parent.body:
+                parent.body.append(ast.copy_location(ast.Pass(), st))
     ast.fix_missing_locations(tree)
     return inl.count, sorted(set(inl.names))
